@@ -10,15 +10,21 @@ EXTENDS LexChars, TLC, Json, FiniteSets
 
 CONSTANTS Mode, Alphabet, MaxLen, Prefix, Emit
 
-RegionKinds == {"str", "dqname", "btname", "cmtm", "cmt1", "dollar", "dollartag"}
+RegionKinds == {"str", "dqname", "btname", "cmtm", "cmt1", "dollar", "dollartag",
+                "cmt1cr", "hint1", "hint1cr", "hintm", "cmt1hash"}
 Opener(k) == CASE k = "str" -> <<"sq">> [] k = "dqname" -> <<"dq">> [] k = "btname" -> <<"bt">>
                [] k = "cmtm" -> <<"slash", "star">> [] k = "cmt1" -> <<"dash", "dash">>
                [] k = "dollar" -> <<"dollar", "dollar">> [] k = "dollartag" -> <<"dollar", "a", "dollar">>
+               [] k = "cmt1cr" -> <<"dash", "dash">> [] k \in {"hint1", "hint1cr"} -> <<"dash", "dash", "plus">>
+               [] k = "hintm" -> <<"slash", "star", "plus">> [] k = "cmt1hash" -> <<"hash", "sp">>
 Closer(k) == CASE k = "str" -> <<"sq">> [] k = "dqname" -> <<"dq">> [] k = "btname" -> <<"bt">>
                [] k = "cmtm" -> <<"star", "slash">> [] k = "cmt1" -> <<"lf">>
                [] k = "dollar" -> <<"dollar", "dollar">> [] k = "dollartag" -> <<"dollar", "a", "dollar">>
+               [] k \in {"cmt1cr", "hint1cr"} -> <<"cr">> [] k \in {"hint1", "cmt1hash"} -> <<"lf">> [] k = "hintm" -> <<"star", "slash">>
 TypeOf(k) == CASE k = "str" -> "String.Single" [] k = "dqname" -> "String.Symbol" [] k = "btname" -> "Name"
-               [] k = "cmtm" -> "Comment.Multiline" [] k = "cmt1" -> "Comment.Single" [] OTHER -> "Literal"
+               [] k = "cmtm" -> "Comment.Multiline" [] k \in {"cmt1", "cmt1cr", "cmt1hash"} -> "Comment.Single"
+               [] k \in {"hint1", "hint1cr"} -> "Comment.Single.Hint" [] k = "hintm" -> "Comment.Multiline.Hint"
+               [] OTHER -> "Literal"
 \* may character c follow body prefix b inside a region of kind k?  (the body must not contain the
 \* region's terminator; quote-delimited regions also exclude backslash; hints are a different type)
 \* length of the run of symbol q at the end of b
@@ -32,10 +38,12 @@ BodyOk(k, b, c) ==
       [] k = "dqname" -> c # "bs" /\ QuoteOk(b, c, "dq")
       [] k = "btname" -> QuoteOk(b, c, "bt")
       [] k = "cmtm"   -> ~(n >= 1 /\ b[n] = "star" /\ c = "slash") /\ ~(n = 0 /\ c \in {"plus", "slash"})
-      [] k = "cmt1"   -> c \notin {"lf", "cr"} /\ ~(n = 0 /\ c = "plus")
+      [] k = "hintm"  -> ~(n >= 1 /\ b[n] = "star" /\ c = "slash") /\ ~(n = 0 /\ c = "slash")
+      [] k \in {"cmt1", "cmt1cr", "cmt1hash"} -> c \notin {"lf", "cr"} /\ ~(n = 0 /\ c = "plus")
+      [] k \in {"hint1", "hint1cr"} -> c \notin {"lf", "cr"}
       [] k = "dollar" -> c # "dollar"
       [] k = "dollartag" -> c # "dollar"
-BodyEndOk(k, b) == CASE k = "cmtm" -> ~(Len(b) >= 1 /\ b[Len(b)] = "star")
+BodyEndOk(k, b) == CASE k \in {"cmtm", "hintm"} -> ~(Len(b) >= 1 /\ b[Len(b)] = "star")
                      [] k = "str" -> TrailRun(b, Len(b), "sq") % 2 = 0
                      [] k = "dqname" -> TrailRun(b, Len(b), "dq") % 2 = 0
                      [] k = "btname" -> TrailRun(b, Len(b), "bt") % 2 = 0
@@ -48,7 +56,11 @@ VARIABLES text, done, kind, lctx, rctx
 vars == <<text, done, kind, lctx, rctx>>
 
 Init == /\ text = (IF Mode = "strings" THEN Prefix ELSE <<>>) /\ done = FALSE
-        /\ IF Mode = "regions" THEN kind \in RegionKinds /\ lctx \in LeftCtx /\ rctx \in RightCtx
+        /\ IF Mode = "regions" THEN /\ kind \in RegionKinds /\ lctx \in LeftCtx /\ rctx \in RightCtx
+                                    \* a region closed by a bare CR must not be followed by LF (CR LF is one line end)
+                                    /\ (Closer(kind) = <<"cr">> => (rctx = <<>> \/ rctx[1] # "lf"))
+                                    \* `# ` opens a comment only where `#` starts a token of its own
+                                    /\ (kind = "cmt1hash" => (lctx = <<>> \/ lctx[Len(lctx)] \in {"sp", "lf", "cr", "lp", "semi", "rp"}))
            ELSE kind = "" /\ lctx = <<>> /\ rctx = <<>>
 Add(c) == /\ ~done /\ Len(text) < MaxLen
           /\ (Mode = "regions" => BodyOk(kind, text, c))
